@@ -113,4 +113,607 @@ theorem writes_single (t : T) : writes [t] = write t := by simp [writes]
 theorem needs_cons2 (t t' : T) (r : List T) : needs (t :: t' :: r) = need t + (needs (t' :: r) + 11) := by
   simp [needs]
 
+/-! ### Leaves: the dispatch on a `#` line and on a `***` / `---` / `___` line -/
+
+theorem hash_lstrip (s : Str) : lstrip ('#' :: s) = '#' :: s := by
+  simp [lstrip, show pyIsSpace '#' = false by decide]
+
+theorem hash_blockCode (s : Str) : blockCodeStart ('#' :: s) = false := by
+  simp [blockCodeStart, replaceTab1, replaceFirst, startsWith, isPrefix_ne]
+
+theorem hash_html (s : Str) : htmlBlockStart ('#' :: s) = .ok none := by
+  unfold htmlBlockStart
+  simp only [hash_lstrip]
+  have hlen : ¬ (('#' :: s).length - ('#' :: s).length ≥ 4) := by simp
+  simp only [hlen, if_false]
+  have hm : multiblock ('#' :: s) = none := by unfold multiblock; simp
+  have hs : ∀ p : Str, startsWith ('<' :: p) ('#' :: s) = false := by
+    intro p; simp [startsWith, isPrefix_ne]
+  have hr : htmlRest ('#' :: s) = none := by
+    unfold htmlRest
+    have h1 : predefined ('#' :: s) = none := by unfold predefined; simp
+    have h2 : customTag ('#' :: s) = false := by
+      unfold customTag
+      have a : openTag ('#' :: s) = none := by unfold openTag; simp
+      have b : closingTag ('#' :: s) = none := by unfold closingTag; simp
+      simp [a, b]
+    simp [h1, h2]
+  have e1 : "<!--".toList = '<' :: ['!', '-', '-'] := by decide
+  have e2 : "<?".toList = '<' :: ['?'] := by decide
+  have e3 : "<!".toList = '<' :: ['!'] := by decide
+  simp only [hm, e1, e2, e3, hs, hr, Bool.false_eq_true, if_false]
+
+theorem span_hashes (n : Nat) (rest : Str) (h : rest.head? ≠ some '#') :
+    span (· == '#') (hashes n ++ rest) = (hashes n, rest) := by
+  induction n with
+  | zero =>
+    cases rest with
+    | nil => rfl
+    | cons c r =>
+      have : c ≠ '#' := fun e => h (by simp [e])
+      simp [hashes, span, this]
+  | succ k ih =>
+    simp only [hashes, List.replicate_succ, List.cons_append, span] at ih ⊢
+    simp [ih]
+
+theorem closingSeq_noHash (q : Str) (h : '#' ∉ q) : closingSeq q = none := by
+  unfold closingSeq
+  simp only
+  split
+  · rfl
+  · have hsuf := span_suffix ws q
+    have hq : '#' ∉ (span ws q).2 := fun e => h (hsuf.subset e)
+    have : (span (· == '#') (span ws q).2).1 = [] := by
+      cases hr : (span ws q).2 with
+      | nil => rfl
+      | cons c r =>
+        have : c ≠ '#' := fun e => hq (by rw [hr, e]; simp)
+        simp [span, this]
+    simp [this]
+
+/-- `(.*?)(\n|\s+?#+\s*?$)` on a text without `#` and without newline: the whole text, then "\n" -/
+theorem headingTail_plain : ∀ (t acc : Str), '#' ∉ t → '\n' ∉ t →
+    headingTail (t ++ ['\n']) acc = some (acc.reverse ++ t, ['\n'])
+  | [], acc, _, _ => by simp [headingTail]
+  | c :: rest, acc, h1, h2 => by
+    have hc : c ≠ '\n' := fun e => h2 (by simp [e])
+    have hcs : closingSeq (c :: (rest ++ ['\n'])) = none := by
+      apply closingSeq_noHash
+      intro e
+      rcases List.mem_cons.mp e with e | e
+      · exact h1 (by rw [← e]; simp)
+      · rcases List.mem_append.mp e with e | e
+        · exact h1 (List.mem_cons_of_mem _ e)
+        · simp at e
+    simp only [List.cons_append, headingTail, hc, if_false, hcs]
+    rw [headingTail_plain rest (c :: acc) (fun e => h1 (List.mem_cons_of_mem _ e)) (fun e => h2 (List.mem_cons_of_mem _ e))]
+    simp
+
+theorem heading_line (lv : Nat) (t : Str) (h1 : 1 ≤ lv) (h6 : lv ≤ 6) (hh : '#' ∉ t) (hn : '\n' ∉ t) :
+    Scan.heading (hashes lv ++ ' ' :: t ++ ['\n']) = some { level := lv, g2 := some t, g3 := some ['\n'] } := by
+  obtain ⟨m, rfl⟩ : ∃ m, lv = m + 1 := ⟨lv - 1, by omega⟩
+  have hup : upTo3Spaces (hashes (m + 1) ++ ' ' :: t ++ ['\n']) = some (0, hashes (m + 1) ++ ' ' :: t ++ ['\n']) := by
+    simp [upTo3Spaces, hashes, List.replicate_succ, countLeading]
+  unfold Scan.heading
+  rw [hup]
+  have hsp : span (· == '#') (hashes (m + 1) ++ ' ' :: t ++ ['\n']) = (hashes (m + 1), ' ' :: (t ++ ['\n'])) := by
+    have := span_hashes (m + 1) (' ' :: (t ++ ['\n'])) (by simp)
+    simpa using this
+  simp only [hsp]
+  have hl : (hashes (m + 1)).length = m + 1 := by simp [hashes]
+  have hc : ¬ ((hashes (m + 1)).length < 1 || (hashes (m + 1)).length > 6) = true := by
+    rw [hl]; simp; omega
+  rw [if_neg hc]
+  have hws : ws ' ' = true := by decide
+  simp only [hl]
+  simp
+  exact ⟨hws, by rw [headingTail_plain t [] hh hn]; simp⟩
+
+theorem strip_nl : strip ['\n'] = [] := by decide
+
+theorem readHeading_line (fw : FW) (lv : Nat) (t : Str) (h1 : 1 ≤ lv) (h6 : lv ≤ 6) (hh : '#' ∉ t) (hn : '\n' ∉ t)
+    (hs : strip t = t) (hne : t ≠ []) :
+    readHeading fw (hashes lv ++ ' ' :: t ++ ['\n']) = some (lv, t, [], fw.next) := by
+  unfold readHeading
+  rw [heading_line lv t h1 h6 hh hn]
+  simp only [Option.getD_some, hs, strip_nl]
+  have : (!t.isEmpty && t.all (· == '#')) = false := by
+    cases t with
+    | nil => exact absurd rfl hne
+    | cons c r =>
+      have : c ≠ '#' := fun e => hh (by simp [e])
+      simp [this]
+  simp [this]
+
+def dcfg (ti : Bool) : Cfg := { types := defaultTypes, tableInterrupt := ti }
+
+/-- a single ATX heading line: one `Heading` entry -/
+theorem tokenize_heading (ti : Bool) (lv : Nat) (t : Str) (h1 : 1 ≤ lv) (h6 : lv ≤ 6) (hh : '#' ∉ t) (hn : '\n' ∉ t)
+    (hs : strip t = t) (hne : t ≠ []) (og start : Nat) (st : St) (g : Nat) :
+    tokenizeBlock (dcfg ti) (g + 6) [{ s := hashes lv ++ ' ' :: t ++ ['\n'], origin := og }] start st =
+      .ok ({ entries := [.heading lv t [] start og], loose := false }, st) := by
+  obtain ⟨m, rfl⟩ : ∃ m, lv = m + 1 := ⟨lv - 1, by omega⟩
+  have hl : hashes (m + 1) ++ ' ' :: t ++ ['\n'] = '#' :: (hashes m ++ ' ' :: t ++ ['\n']) := by
+    simp [hashes, List.replicate_succ]
+  have hr := readHeading_line { lines := [{ s := hashes (m + 1) ++ ' ' :: t ++ ['\n'], origin := og }], pos := 0, start := start }
+    (m + 1) t h1 h6 hh hn hs hne
+  have e : g + 6 = ((((g + 1) + 1) + 1) + 1 + 1) + 1 := by omega
+  rw [e]
+  simp only [tokenizeBlock, tokLoop, FW.peek, List.getElem?_cons_zero, dcfg, defaultTypes, tryTypes, hr]
+  simp only [hl, hash_html, hash_blockCode, Bool.false_eq_true, if_false]
+  simp [FW.next]
+
+theorem hr_facts (c : Char) (hc : c = '*' ∨ c = '-' ∨ c = '_') :
+    htmlBlockStart [c, c, c, '\n'] = .ok none ∧ blockCodeStart [c, c, c, '\n'] = false ∧ Scan.heading [c, c, c, '\n'] = none ∧
+    quoteStart [c, c, c, '\n'] = false ∧ codeFenceStart [c, c, c, '\n'] = none ∧ Scan.thematicBreak [c, c, c, '\n'] = true := by
+  rcases hc with rfl | rfl | rfl <;> decide
+
+/-- a single thematic-break line: one `ThematicBreak` entry -/
+theorem tokenize_hr (ti : Bool) (c : Char) (hc : c = '*' ∨ c = '-' ∨ c = '_') (og start : Nat) (st : St) (g : Nat) :
+    tokenizeBlock (dcfg ti) (g + 9) [{ s := [c, c, c, '\n'], origin := og }] start st =
+      .ok ({ entries := [.thematicBreak [c, c, c, '\n'] start og], loose := false }, st) := by
+  obtain ⟨f1, f2, f3, f4, f5, f6⟩ := hr_facts c hc
+  have e : g + 9 = (((((((g + 1) + 1) + 1) + 1) + 1) + 1) + 1 + 1) + 1 := by omega
+  rw [e]
+  simp only [tokenizeBlock, tokLoop, FW.peek, List.getElem?_cons_zero, dcfg, defaultTypes, tryTypes, readHeading,
+    f1, f2, f3, f4, f5, f6, Bool.false_eq_true, if_false, if_true]
+  simp [FW.next]
+
+/-! ### What well-formedness gives about the written lines -/
+
+/-- a complete, tab-free line: a body without line-boundary characters and tabs, then "\n" -/
+def LineOk (s : Str) : Prop := ∃ body, s = body ++ ['\n'] ∧ (∀ c ∈ body, isLineSep c = false) ∧ '\t' ∉ body
+
+theorem lineOk_nlEnd {s : Str} (h : LineOk s) : NlEnd s := by
+  obtain ⟨body, rfl, hb, _⟩ := h
+  refine ⟨body, rfl, ?_⟩
+  intro hm
+  have := hb _ hm
+  revert this; decide
+
+theorem lineOk_notab {s : Str} (h : LineOk s) : '\t' ∉ s := by
+  obtain ⟨body, rfl, _, ht⟩ := h
+  simp only [List.mem_append, List.mem_singleton, not_or]
+  exact ⟨ht, by decide⟩
+
+theorem lineOk_oneLine {s : Str} (h : LineOk s) : oneLine s = true := by
+  obtain ⟨body, rfl, hb, _⟩ := h
+  simp only [oneLine, List.getLast?_append, List.getLast?_singleton, Option.some_or, List.dropLast_concat,
+    Bool.and_eq_true, beq_iff_eq, List.all_eq_true, Bool.not_eq_eq_eq_not, Bool.not_true, true_and]
+  exact hb
+
+theorem lineOk_ne {s : Str} (h : LineOk s) : s ≠ [] := by
+  obtain ⟨body, rfl, _, _⟩ := h; simp
+
+theorem lineOk_of (l : Str) (h1 : oneLine l = true) (h2 : l.contains '\t' = false) : LineOk l := by
+  simp only [oneLine, Bool.and_eq_true, beq_iff_eq, List.all_eq_true, Bool.not_eq_eq_eq_not, Bool.not_true] at h1
+  obtain ⟨body, rfl⟩ := List.getLast?_eq_some_iff.mp h1.1
+  refine ⟨body, rfl, by simpa using h1.2, ?_⟩
+  intro hm
+  have : (body ++ ['\n']).contains '\t' = true := by simp [hm]
+  rw [h2] at this; cases this
+
+theorem lineOk_nl : LineOk ['\n'] := ⟨[], rfl, by simp, by simp⟩
+
+theorem lineOk_qsp {s : Str} (h : LineOk s) : LineOk (qsp s) := by
+  obtain ⟨body, rfl, hb, ht⟩ := h
+  refine ⟨'>' :: ' ' :: body, rfl, ?_, ?_⟩
+  · intro c hc
+    rcases List.mem_cons.mp hc with rfl | hc
+    · decide
+    · rcases List.mem_cons.mp hc with rfl | hc
+      · decide
+      · exact hb c hc
+  · simp only [List.mem_cons, not_or]
+    exact ⟨by decide, by decide, ht⟩
+
+theorem lineOk_heading (lv : Nat) (t : Str) (hsep : ∀ c ∈ t, isLineSep c = false) (ht : '\t' ∉ t) :
+    LineOk (hashes lv ++ ' ' :: t ++ ['\n']) := by
+  refine ⟨hashes lv ++ ' ' :: t, by simp, ?_, ?_⟩
+  · intro c hc
+    rcases List.mem_append.mp hc with hc | hc
+    · simp only [hashes, List.mem_replicate] at hc
+      rw [hc.2]; decide
+    · rcases List.mem_cons.mp hc with rfl | hc
+      · decide
+      · exact hsep c hc
+  · intro hc
+    rcases List.mem_append.mp hc with hc | hc
+    · simp only [hashes, List.mem_replicate] at hc
+      exact absurd hc.2 (by decide)
+    · rcases List.mem_cons.mp hc with hc | hc
+      · exact absurd hc (by decide)
+      · exact ht hc
+
+theorem lineOk_hr (c : Char) (hc : c = '*' ∨ c = '-' ∨ c = '_') : LineOk [c, c, c, '\n'] := by
+  refine ⟨[c, c, c], rfl, ?_, ?_⟩ <;> rcases hc with rfl | rfl | rfl <;> decide
+
+/-- the facts `T.ok` packs for a heading -/
+structure HeadOk (lv : Nat) (t : Str) : Prop where
+  h1 : 1 ≤ lv
+  h6 : lv ≤ 6
+  ne : t ≠ []
+  inert : inertText t = true
+  nohash : '#' ∉ t
+  stripped : strip t = t
+  notab : '\t' ∉ t
+  nosep : ∀ c ∈ t, isLineSep c = false
+
+theorem headOk_of (lv : Nat) (t : Str) (h : (T.heading lv t).ok = true) : HeadOk lv t := by
+  simp only [T.ok, Bool.and_eq_true, decide_eq_true_eq, Bool.not_eq_eq_eq_not, Bool.not_true, beq_iff_eq,
+    List.all_eq_true, List.isEmpty_eq_false_iff] at h
+  obtain ⟨⟨⟨⟨⟨⟨⟨a, b⟩, c⟩, d⟩, e⟩, f⟩, g⟩, i⟩ := h
+  exact ⟨a, b, c, d, by simpa using e, f, by simpa using g, i⟩
+
+theorem headOk_nonl {lv : Nat} {t : Str} (h : HeadOk lv t) : '\n' ∉ t := by
+  intro hm
+  have := h.nosep _ hm
+  revert this; decide
+
+open Mistletoe.Document (joinNl) in
+/-- the facts `T.ok` packs for a paragraph -/
+structure ParaOk (ls : List Str) : Prop where
+  ne : ls ≠ []
+  inert : ∀ l ∈ ls, inertLine l = true
+  prose : ∀ l ∈ ls, proseLine l = true
+  line : ∀ l ∈ ls, LineOk l
+  body : inertBody (joinNl (ls.map strip)) = true
+
+theorem paraOk_of (ls : List Str) (h : (T.para ls).ok = true) : ParaOk ls := by
+  simp only [T.ok, Bool.and_eq_true, Bool.not_eq_eq_eq_not, Bool.not_true, List.all_eq_true,
+    List.isEmpty_eq_false_iff] at h
+  obtain ⟨⟨a, b⟩, c⟩ := h
+  exact ⟨a, fun l hl => (b l hl).1.1.1, fun l hl => (b l hl).1.1.2, fun l hl => lineOk_of l (b l hl).1.2 (b l hl).2, c⟩
+
+theorem hrOk_of (c : Char) (h : (T.hr c).ok = true) : c = '*' ∨ c = '-' ∨ c = '_' := by
+  have : (c = '*' ∨ c = '-') ∨ c = '_' := by simpa [T.ok] using h
+  rcases this with (h | h) | h
+  · exact Or.inl h
+  · exact Or.inr (Or.inl h)
+  · exact Or.inr (Or.inr h)
+
+theorem quoteOk_of (kids : List T) (h : (T.quote kids).ok = true) : kids ≠ [] ∧ T.oks kids = true := by
+  simpa [T.ok] using h
+
+theorem oks_cons (t : T) (ts : List T) (h : T.oks (t :: ts) = true) : t.ok = true ∧ T.oks ts = true := by
+  simpa [T.oks] using h
+
+mutual
+theorem write_lineOk : ∀ (t : T), t.ok = true → (∀ s ∈ write t, LineOk s) ∧ write t ≠ []
+  | .para ls, h => by
+    have := paraOk_of ls h
+    exact ⟨this.line, this.ne⟩
+  | .heading lv t, h => by
+    have := headOk_of lv t h
+    simp only [write, List.mem_singleton]
+    constructor
+    · intro s hs; subst hs; exact lineOk_heading lv t this.nosep this.notab
+    · simp
+  | .hr c, h => by
+    simp only [write, List.mem_singleton]
+    constructor
+    · intro s hs; subst hs; exact lineOk_hr c (hrOk_of c h)
+    · simp
+  | .quote kids, h => by
+    obtain ⟨hne, hk⟩ := quoteOk_of kids h
+    have ih := writes_lineOk kids hk
+    simp only [write, List.mem_map]
+    constructor
+    · rintro s ⟨s0, hs0, rfl⟩
+      exact lineOk_qsp (ih.1 s0 hs0)
+    · simpa using ih.2 hne
+theorem writes_lineOk : ∀ (ts : List T), T.oks ts = true → (∀ s ∈ writes ts, LineOk s) ∧ (ts ≠ [] → writes ts ≠ [])
+  | [], _ => by simp [writes]
+  | t :: rest, h => by
+    obtain ⟨h1, h2⟩ := oks_cons t rest h
+    have iht := write_lineOk t h1
+    have ihr := writes_lineOk rest h2
+    cases rest with
+    | nil => simpa [writes] using iht
+    | cons t' r =>
+      rw [writes_cons2]
+      constructor
+      · intro s hs
+        rcases List.mem_append.mp hs with hs | hs
+        · exact iht.1 s hs
+        · rcases List.mem_cons.mp hs with rfl | hs
+          · exact lineOk_nl
+          · exact ihr.1 s hs
+      · intro _; simp
+end
+
+/-! ### The block phase of a written tree -/
+
+theorem numbered_eq : Props.C05.numbered = numbered := rfl
+
+theorem numbered_sh (ls : List Str) (k j : Nat) : numbered (k + j) ls = (numbered k ls).map (Line.sh j) := by
+  rw [← numbered_eq]; exact Props.C05.numbered_sh ls k j
+
+theorem numbered_allNlEnd (k : Nat) (ls : List Str) (h : ∀ s ∈ ls, LineOk s) : AllNlEnd (numbered k ls) :=
+  fun l hl => lineOk_nlEnd (h _ (numbered_mem k ls l hl))
+
+theorem numbered_ne (k : Nat) (ls : List Str) (h : ls ≠ []) : ∃ l0 tl, numbered k ls = l0 :: tl ∧ l0.origin = k + 1 := by
+  cases ls with
+  | nil => exact absurd rfl h
+  | cons s r => exact ⟨_, _, numbered_cons k s r, rfl⟩
+
+mutual
+theorem shift_entryOf (j : Nat) : ∀ (n : Nat) (t : T), shiftEntry j (entryOf n t) = entryOf (n + j) t
+  | n, .para ls => by simp [entryOf, shiftEntry]
+  | n, .heading lv t => by simp [entryOf, shiftEntry]
+  | n, .hr c => by simp [entryOf, shiftEntry]
+  | n, .quote kids => by simp [entryOf, shiftEntry, shift_entriesOf j n kids]
+theorem shift_entriesOf (j : Nat) : ∀ (n : Nat) (ts : List T), shiftEntries j (entriesOf n ts) = entriesOf (n + j) ts
+  | n, [] => by simp [entriesOf, shiftEntries]
+  | n, t :: rest => by
+    simp only [entriesOf, shiftEntries, shift_entryOf j n t, shift_entriesOf j _ rest]
+    congr 2; omega
+end
+
+/-- the state after the siblings: `Quote.read` switches `Paragraph.parse_setext` back on when it returns -/
+def after (st : St) (b : Bool) : St := { setext := st.setext || b, defs := st.defs }
+
+theorem after_false (st : St) : after st false = st := by cases st; simp [after]
+
+theorem closed_entryOf (n : Nat) : ∀ (t : T), closedE (entryOf n t) = true ∧ noList (entryOf n t) = true
+  | .para _ => ⟨rfl, rfl⟩
+  | .heading _ _ => ⟨rfl, rfl⟩
+  | .hr _ => ⟨rfl, rfl⟩
+  | .quote _ => ⟨rfl, rfl⟩
+
+mutual
+/-- **one node**: the written lines of a well-formed node, numbered from `k + 1`, tokenize to exactly its entry -/
+theorem node_tokenize (ti : Bool) : ∀ (t : T), t.ok = true → ∀ (k : Nat) (st : St) (g : Nat),
+    tokenizeBlock (dcfg ti) (need t + g) (numbered k (write t)) (k + 1) st =
+      .ok ({ entries := [entryOf (k + 1) t], loose := false }, after st (isQuote t))
+  | .para ls, h, k, st, g => by
+    have hp := paraOk_of ls h
+    obtain ⟨l0, tl, hl, ho⟩ := numbered_ne k ls hp.ne
+    have hs : (l0 :: tl).map (·.s) = ls := by rw [← hl]; exact numbered_s k ls
+    have := Props.C14.C14_single_paragraph_default ti l0 tl
+      (fun l hm => hp.inert _ (numbered_mem k ls l (by rw [hl]; exact hm))) (k + 1) st g
+    simp only [write, need, isQuote, after_false, entryOf, hl]
+    rw [Nat.add_comm 14 g]
+    rw [hs, ho] at this
+    exact this
+  | .heading lv t, h, k, st, g => by
+    have hh := headOk_of lv t h
+    have := tokenize_heading ti lv t hh.h1 hh.h6 hh.nohash (headOk_nonl hh) hh.stripped hh.ne (k + 1) (k + 1) st (8 + g)
+    simp only [write, need, isQuote, after_false, entryOf, numbered_cons, show numbered (k + 1) [] = [] from rfl]
+    have e : 14 + g = 8 + g + 6 := by omega
+    rw [e]; exact this
+  | .hr c, h, k, st, g => by
+    have := tokenize_hr ti c (hrOk_of c h) (k + 1) (k + 1) st (5 + g)
+    simp only [write, need, isQuote, after_false, entryOf, numbered_cons, show numbered (k + 1) [] = [] from rfl]
+    have e : 14 + g = 5 + g + 9 := by omega
+    rw [e]; exact this
+  | .quote kids, h, k, st, g => by
+    obtain ⟨hne, hk⟩ := quoteOk_of kids h
+    have ih := nodes_tokenize ti kids hk hne k { st with setext := false } g
+    have hw := writes_lineOk kids hk
+    obtain ⟨l0, tl, hl, ho⟩ := numbered_ne k (writes kids) (hw.2 hne)
+    rw [hl] at ih
+    have := Props.C04.C04_quote_wraps_default ti l0 tl
+      (fun l hm => lineOk_notab (hw.1 _ (numbered_mem k _ l (by rw [hl]; exact hm)))) (k + 1) st _ (needs kids + g) _ ih
+    simp only [write, need, isQuote, entryOf]
+    have e1 : numbered k ((writes kids).map qsp) = (l0 :: tl).map quoteSp := by
+      rw [← hl]; exact Props.C04.numbered_map_sp k (writes kids)
+    have e2 : needs kids + 6 + g = needs kids + g + 6 := by omega
+    rw [e1, e2]
+    refine Eq.trans this ?_
+    rw [ho]
+    simp [after]
+/-- **siblings**, separated by one "\n" line each -/
+theorem nodes_tokenize (ti : Bool) : ∀ (ts : List T), T.oks ts = true → ts ≠ [] → ∀ (k : Nat) (st : St) (g : Nat),
+    tokenizeBlock (dcfg ti) (needs ts + g) (numbered k (writes ts)) (k + 1) st =
+      .ok ({ entries := entriesOf (k + 1) ts, loose := decide (1 < ts.length) }, after st (ts.any isQuote))
+  | [], _, hne, _, _, _ => absurd rfl hne
+  | t :: rest, h, _, k, st, g => by
+    obtain ⟨h1, h2⟩ := oks_cons t rest h
+    cases rest with
+    | nil =>
+      have := node_tokenize ti t h1 k st g
+      simpa [writes, needs, entriesOf] using this
+    | cons t' r =>
+      have hA := node_tokenize ti t h1 k st 0
+      have hB := nodes_tokenize ti (t' :: r) h2 (by simp) k (after st (isQuote t)) g
+      have hwt := write_lineOk t h1
+      have hwr := writes_lineOk (t' :: r) h2
+      have hc := closed_entryOf (k + 1) t
+      have key := tokenizeBlock_concat (dcfg ti) (show BTok.blankLine ∉ defaultTypes by decide) (numbered k (write t)) (numbered k (writes (t' :: r)))
+        { s := ['\n'], origin := k + (write t).length + 1 } rfl (k + 1) st (need t + 0) (needs (t' :: r) + g) _ _ _ _ hA
+        (by intro e he; simp only [List.mem_singleton] at he; subst he; exact hc.2)
+        (by intro e he; simp only [List.getLast?_singleton, Option.some.injEq] at he; subst he; exact hc.1)
+        hB (numbered_allNlEnd k _ hwt.1) (numbered_allNlEnd k _ hwr.1)
+      have hbuf : numbered k (writes (t :: t' :: r)) =
+          numbered k (write t) ++ { s := ['\n'], origin := k + (write t).length + 1 } ::
+            (numbered k (writes (t' :: r))).map (Line.sh ((numbered k (write t)).length + 1)) := by
+        rw [writes_cons2, numbered_append, numbered_cons, numbered_length, ← numbered_sh]
+        have : k + (write t).length + 1 = k + ((write t).length + 1) := by omega
+        rw [this]
+      have hgas : needs (t :: t' :: r) + g = need t + 0 + (needs (t' :: r) + g + (dcfg ti).types.length + 1) := by
+        rw [needs_cons2]
+        simp only [dcfg, defaultTypes, List.length_cons, List.length_nil]
+        omega
+      rw [hbuf, hgas, key, numbered_length, shift_entriesOf]
+      have e3 : k + 1 + ((write t).length + 1) = k + 1 + (write t).length + 1 := by omega
+      simp only [List.singleton_append, entriesOf, e3, List.length_cons, List.any_cons]
+      have hl : decide (1 < r.length + 1 + 1) = true := by simp
+      have hs : after (after st (isQuote t)) (isQuote t' || r.any isQuote) = after st (isQuote t || (isQuote t' || r.any isQuote)) := by
+        simp [after, Bool.or_assoc]
+      rw [hl, hs]
+end
+
+/-- **the block phase of a written document** -/
+theorem blockPhase_writes (ti : Bool) (ts : List T) (h : T.oks ts = true) (hne : ts ≠ []) (g : Nat) :
+    blockPhase (dcfg ti) (needs ts + g) (writes ts) =
+      .ok ({ entries := entriesOf 1 ts, loose := decide (1 < ts.length) }, {}) := by
+  have e : blockPhase (dcfg ti) (needs ts + g) (writes ts) = tokenizeBlock (dcfg ti) (needs ts + g) (numbered 0 (writes ts)) 1 {} := rfl
+  rw [e]
+  have := nodes_tokenize ti ts h hne 0 {} g
+  simp only [Nat.zero_add] at this
+  rw [this]
+  simp [after]
+
+/-! ### The block token constructors on the expected entries -/
+
+open Mistletoe.Document (joinNl mkBlock mkBlocks)
+
+mutual
+/-- the block token expected for a node whose first line is line `n` -/
+def blockOf (n : Nat) : T → Mistletoe.Block
+  | .para ls => .paragraph (proseInlines (ls.map strip)) n
+  | .heading lv t => .heading lv [] [.rawText t] n
+  | .hr c => .thematicBreak [c, c, c] n
+  | .quote kids => .quote (blocksOf n kids) n
+def blocksOf (n : Nat) : List T → List Mistletoe.Block
+  | [] => []
+  | t :: rest => blockOf n t :: blocksOf (n + (write t).length + 1) rest
+end
+
+theorem mkBlock_of_single (cfg : Document.Cfg) (fn : Footnotes.Table) (e : Entry) (b : Mistletoe.Block)
+    (h : mkBlocks cfg fn [e] = .ok [b]) : mkBlock cfg fn e = .ok (some b) := by
+  simp only [mkBlocks] at h
+  cases hm : mkBlock cfg fn e with
+  | err er => simp [hm] at h
+  | ok o =>
+    cases o with
+    | none => simp [hm] at h
+    | some x => simp only [hm, Res.ok.injEq, List.cons.injEq, and_true] at h; rw [h]
+
+theorem stripNl_hr (c : Char) (hc : c = '*' ∨ c = '-' ∨ c = '_') : Document.stripNl [c, c, c, '\n'] = [c, c, c] := by
+  rcases hc with rfl | rfl | rfl <;> decide
+
+mutual
+theorem mkBlock_entryOf (cfg : Document.Cfg) (fn : Footnotes.Table) (ht : ∀ t ∈ cfg.span, inertClass t = true)
+    (hc : cfg.span.count .lineBreak = 1) : ∀ (t : T), t.ok = true → ∀ (n : Nat),
+    mkBlock cfg fn (entryOf n t) = .ok (some (blockOf n t))
+  | .para ls, h, n => by
+    have hp := paraOk_of ls h
+    exact mkBlock_of_single cfg fn _ _ (InertInline.mkBlocks_prose cfg fn ls n n ht hc hp.ne hp.prose hp.body)
+  | .heading lv t, h, n => by
+    have hh := headOk_of lv t h
+    have hin : Document.inl cfg fn t = .ok [.rawText t] := InertInline.tokenizeInner_inert cfg.span fn t ht hh.inert hh.ne
+    simp only [entryOf, blockOf, mkBlock, hin]
+  | .hr c, h, n => by
+    simp only [entryOf, blockOf, mkBlock, stripNl_hr c (hrOk_of c h)]
+  | .quote kids, h, n => by
+    obtain ⟨_, hk⟩ := quoteOk_of kids h
+    simp only [entryOf, blockOf, mkBlock, mkBlocks_entriesOf cfg fn ht hc kids hk n]
+theorem mkBlocks_entriesOf (cfg : Document.Cfg) (fn : Footnotes.Table) (ht : ∀ t ∈ cfg.span, inertClass t = true)
+    (hc : cfg.span.count .lineBreak = 1) : ∀ (ts : List T), T.oks ts = true → ∀ (n : Nat),
+    mkBlocks cfg fn (entriesOf n ts) = .ok (blocksOf n ts)
+  | [], _, _ => by simp [entriesOf, blocksOf, mkBlocks]
+  | t :: rest, h, n => by
+    obtain ⟨h1, h2⟩ := oks_cons t rest h
+    simp only [entriesOf, blocksOf, mkBlocks, mkBlock_entryOf cfg fn ht hc t h1 n,
+      mkBlocks_entriesOf cfg fn ht hc rest h2 _]
+end
+
+/-- **`Document(lines)` on a written document** -/
+theorem parseLines_writes (cfg : Document.Cfg) (ti : Bool) (hb : cfg.block = dcfg ti)
+    (ht : ∀ t ∈ cfg.span, inertClass t = true) (hc : cfg.span.count .lineBreak = 1)
+    (ts : List T) (h : T.oks ts = true) (hne : ts ≠ []) (g : Nat) :
+    Document.parseLines cfg (needs ts + g) (writes ts) = .ok { kids := blocksOf 1 ts, footnotes := [] } := by
+  unfold Document.parseLines
+  rw [hb, blockPhase_writes ti ts h hne g]
+  simp only
+  rw [mkBlocks_entriesOf cfg _ ht hc ts h 1]
+  rfl
+
+/-! ### HTML written directly from the tree -/
+
+open Mistletoe.Html Mistletoe.Escape
+open Mistletoe.InertInline (flat_append flat_prose)
+
+mutual
+/-- the HTML of one node: `<p>`/`<hN>` around the escaped text, `<hr />`, `<blockquote>` around the
+    children, each followed by a newline -/
+def htmlNode (q : Quotes) : T → Str
+  | .para ls => "<p>".toList ++ escapeHtmlText q.dq q.sq (joinNl (ls.map strip)) ++ "</p>".toList
+  | .heading lv t => '<' :: 'h' :: natDigits lv ++ ['>'] ++ escapeHtmlText q.dq q.sq t ++ '<' :: '/' :: 'h' :: natDigits lv ++ ['>']
+  | .hr _ => "<hr />".toList
+  | .quote kids => "<blockquote>\n".toList ++ htmlKids q kids ++ "</blockquote>".toList
+/-- nodes, each followed by a newline -/
+def htmlKids (q : Quotes) : List T → Str
+  | [] => []
+  | t :: rest => htmlNode q t ++ '\n' :: htmlKids q rest
+end
+
+/-- the HTML of the document -/
+def htmlOf (o : Opts) (ts : List T) : Str := htmlKids o.q ts
+
+theorem flat_cons (e : Ev) (es : List Ev) : flat (e :: es) = flatEv e ++ flat es := by simp [flat]
+theorem flat_nil : flat [] = [] := rfl
+theorem flatEv_nl : flatEv nl = ['\n'] := rfl
+
+mutual
+theorem flat_blockOf (q : Quotes) : ∀ (t : T) (n : Nat), flat (renderBlock q false (blockOf n t)) = htmlNode q t
+  | .para ls, n => by
+    simp only [blockOf, htmlNode]
+    simp only [renderBlock, Bool.false_eq_true, if_false, flat_append, flat_prose]
+    simp [flat, flatEv, flatAttrs]
+  | .heading lv t, n => by
+    simp only [blockOf, htmlNode]
+    simp only [renderBlock, renderInlines, renderInline, flat_append, flat_cons, flat_nil,
+      flatEv, flatAttrs, List.append_nil, List.append_assoc, List.cons_append, List.nil_append]
+  | .hr c, n => by
+    simp only [blockOf, htmlNode]
+    simp only [renderBlock]
+    decide
+  | .quote kids, n => by
+    simp only [blockOf, htmlNode]
+    simp only [renderBlock, flat_append, flat_afterEach q kids n]
+    simp [flat, flatEv, flatAttrs, nl]
+theorem flat_afterEach (q : Quotes) : ∀ (ts : List T) (n : Nat),
+    flat (renderAfterEach q false (blocksOf n ts)) = htmlKids q ts
+  | [], _ => by simp [blocksOf, renderAfterEach, htmlKids, flat]
+  | t :: rest, n => by
+    simp only [blocksOf, htmlKids]
+    simp only [renderAfterEach, flat_append, flat_blockOf q t n, flat_afterEach q rest _]
+    simp [flat, flatEv, nl]
+end
+
+theorem flat_sep_afterEach (q : Quotes) (s : Bool) : ∀ (bs : List Mistletoe.Block), bs ≠ [] →
+    flat (renderSep q s bs) ++ ['\n'] = flat (renderAfterEach q s bs)
+  | [], h => absurd rfl h
+  | [b], _ => by simp [renderSep, renderAfterEach, flat_append, flat, flatEv, nl]
+  | b :: b' :: rest, _ => by
+    have ih := flat_sep_afterEach q s (b' :: rest) (by simp)
+    simp only [renderSep, renderAfterEach, flat_append] at ih ⊢
+    rw [List.append_assoc, List.append_assoc, ih]
+    simp [List.append_assoc]
+
+theorem htmlNode_ne (q : Quotes) : ∀ (t : T), htmlNode q t ≠ []
+  | .para _ => by simp [htmlNode]
+  | .heading _ _ => by simp [htmlNode]
+  | .hr _ => by simp [htmlNode]
+  | .quote _ => by simp [htmlNode]
+
+/-- **the HTML renderer on the expected document** -/
+theorem render_blocksOf (o : Opts) (ts : List T) (hne : ts ≠ []) (fn : List (Str × Str × Str)) :
+    render o { kids := blocksOf 1 ts, footnotes := fn } = htmlOf o ts := by
+  obtain ⟨t, rest, rfl⟩ : ∃ t rest, ts = t :: rest := by
+    cases ts with
+    | nil => exact absurd rfl hne
+    | cons t rest => exact ⟨t, rest, rfl⟩
+  have hk : blocksOf 1 (t :: rest) = blockOf 1 t :: blocksOf (1 + (write t).length + 1) rest := by simp [blocksOf]
+  have hnonempty : (flat (renderSep o.q false (blocksOf 1 (t :: rest)))).isEmpty = false := by
+    rw [hk]
+    cases hr : blocksOf (1 + (write t).length + 1) rest with
+    | nil =>
+      simp only [renderSep, flat_blockOf]
+      simpa using htmlNode_ne o.q t
+    | cons b bs =>
+      simp only [renderSep, flat_append, flat_blockOf]
+      simp [htmlNode_ne o.q t]
+  have hd : renderDoc o.q { kids := blocksOf 1 (t :: rest), footnotes := fn } =
+      renderSep o.q false (blocksOf 1 (t :: rest)) ++ [nl] := by
+    simp only [renderDoc, hk]
+    rw [← hk, hnonempty]
+    simp
+  rw [render, hd, flat_append]
+  have : flat [nl] = ['\n'] := rfl
+  rw [this, flat_sep_afterEach o.q false _ (by rw [hk]; simp), flat_afterEach]
+  rfl
 end Mistletoe.Compose
